@@ -152,7 +152,9 @@ def dart_follow_ok(case):
 
 
 def clean(case, op):
-    return clean_core(case, op) and dart_follow_ok(case)
+    # dart_follow_ok is no longer a side condition: the Dart generator emits ${name} where $name would swallow
+    # the next character (repair of C08-dart-delim-after-variable)
+    return clean_core(case, op)
 
 
 def clean_core(case, op):
@@ -486,7 +488,7 @@ def oracle(case, op):
                     return "no %s %s topic statements found for op %s" % (g, sd, op), None
         late = None
         for o in obs:
-            sig = DART_FOLLOW if (o["gen"] == "dart" and not dart_follow_ok(case)) else None
+            sig = None      # (was DART_FOLLOW for Dart outside dart_follow_ok: repaired, Dart emits ${name} there)
             why = None
             if o["status"] != 0:
                 why = "%s %s: topic statements do not evaluate (%s); the other languages use %r" % (o["gen"], o["side"], o["why"], want)
